@@ -3,6 +3,12 @@
 import json, os
 HERE = os.path.dirname(os.path.abspath(__file__))
 CLAIMED = {
+ 'C14': ('proof', 'Constructor table and switch function of the mapping engine are interpreted abstractly over every int input and symbolic elapsed time; the complete transition relation (3 states x [-128,255] x {fresh,expired}) and the tick inactivity branch are compared with the oracle. Exhaustive over the single-step quantifier; histories follow by induction on (state,last timestamp).',
+         'clang AST, lltdsa engine, oracle.mapping_step, monotone clock > 0',
+         'abstract interpretation of real constructor/switch/tick code; relation vs oracle', '4 (C14)'),
+ 'C15': ('proof', 'Same method for the session automaton: complete relation over 4 states x events 0..7 x {fresh,expired} compared with the oracle; values outside the alphabet unconstrained.',
+         'clang AST, lltdsa engine, oracle.session_step, monotone clock > 0',
+         'abstract interpretation of real constructor/switch code; relation vs oracle', '4 (C15)'),
  'C20': ('proof', 'Symbol closure (ld -r / nm -u) of the core over the compiler matrix plus resolved callees, include graph and OS-macro scan: the finite configuration space of the quantifier is enumerated completely in the thorough tier.',
          'clang/gcc as installed; compilers not installed (OpenWatcom, MSVC, xtensa-gcc) not covered',
          'symbol closure + resolved-callee who-may-call + lexer-level include/conditional lint', '4 (C20)'),
